@@ -4,10 +4,12 @@ import (
 	"crypto/sha256"
 	"encoding/hex"
 	"fmt"
+	"github.com/coyim/otr3"
 	"runtime"
 	"sync"
 	"sync/atomic"
 	"testing"
+	"time"
 
 	"pgregory.net/rapid"
 
@@ -165,5 +167,137 @@ func TestProp_C20_Race(t *testing.T) {
 	rapid.Check(t, func(rt *rapid.T) {
 		sc := genConc(rt, 8, 6)
 		sim.Judge(rt, "C20race", sc)
+	})
+}
+
+// ---- conversations on the library's default randomness (Conversation.Rand unset) ----
+
+// SysScript: K pairs, each with its own keys and policies, all using the operating system's generator, run
+// at the same time. Nothing here is reproducible byte for byte, so what is judged is what must hold for any
+// random bytes: every call succeeds, every text arrives intact, SMP with equal secrets succeeds, and no two
+// sessions share a session id (which independent randomness makes a 2^-64 event).
+type SysScript struct {
+	Pairs  int `json:"pairs"`
+	Rounds int `json:"rounds"`
+	V      int `json:"v"`
+}
+
+func sysPair(i int, sc *SysScript) (ssids [][8]byte, err error) {
+	defer func() {
+		if r := recover(); r != nil {
+			err = fmt.Errorf("panic: %v", r)
+		}
+	}()
+	pol := sim.PolV3
+	if sc.V == 2 || (sc.V == 0 && i%3 == 1) {
+		pol = sim.PolV2
+	}
+	w := sim.NewWorld(sim.PartyOpts{Name: "A", KeyI: (2 * i) % sim.PoolSize(), Pol: pol, SysRand: true}, sim.PartyOpts{Name: "B", KeyI: (2*i + 1) % sim.PoolSize(), Pol: pol, SysRand: true})
+	w.OnCall = func(c *sim.Call) {
+		if c.Err != nil && err == nil {
+			err = fmt.Errorf("%s.%s: %v", w.P[c.Who].Name, c.Name, c.Err)
+		}
+	}
+	for r := 0; r < sc.Rounds && err == nil; r++ {
+		// a query shortly after a key exchange is taken for an echo of the previous one
+		w.AgeClock(0, 3*time.Minute)
+		w.AgeClock(1, 3*time.Minute)
+		if !w.Handshake(r & 1) {
+			return nil, fmt.Errorf("round %d: the key exchange did not complete", r)
+		}
+		sa, sb := w.P[0].C.GetSSID(), w.P[1].C.GetSSID()
+		if sa != sb {
+			return nil, fmt.Errorf("round %d: the two ends have different session ids", r)
+		}
+		ssids = append(ssids, sa)
+		for k := 0; k < 3; k++ {
+			for d := 0; d < 2; d++ {
+				text := []byte(fmt.Sprintf("pair %d round %d text %d from %d", i, r, k, d))
+				w.Send(d, text)
+				got := false
+				for _, c := range w.Flush(1000) {
+					if c.Who == 1-d && c.HasPl {
+						if string(c.Plain) != string(text) {
+							return nil, fmt.Errorf("round %d: text arrived as %q", r, c.Plain)
+						}
+						got = true
+					}
+				}
+				if !got && err == nil {
+					return nil, fmt.Errorf("round %d: a text did not arrive", r)
+				}
+			}
+		}
+		nA, nB := len(w.P[0].SMP), len(w.P[1].SMP)
+		w.SMPStart(r&1, "", []byte("the same secret"))
+		w.Flush(1000)
+		w.SMPAnswer(1-r&1, []byte("the same secret"))
+		w.Flush(1000)
+		ok := 0
+		for _, e := range append(append([]sim.SMPEv{}, w.P[0].SMP[nA:]...), w.P[1].SMP[nB:]...) {
+			if e.Ev == otr3.SMPEventSuccess {
+				ok++
+			}
+		}
+		if ok != 2 && err == nil {
+			return nil, fmt.Errorf("round %d: SMP with equal secrets succeeded on %d of 2 sides", r, ok)
+		}
+		if r%2 == 1 {
+			w.End(0)
+			w.Flush(1000)
+			w.End(1)
+			w.Flush(1000)
+		}
+	}
+	return ssids, err
+}
+
+func runSys(sc *SysScript) *sim.Outcome {
+	o := &sim.Outcome{}
+	k := sc.Pairs
+	res := make([][][8]byte, k)
+	errs := make([]error, k)
+	var wg sync.WaitGroup
+	gate := make(chan struct{})
+	for i := 0; i < k; i++ {
+		wg.Add(1)
+		go func(i int) {
+			defer wg.Done()
+			<-gate
+			res[i], errs[i] = sysPair(i, sc)
+		}(i)
+	}
+	close(gate)
+	wg.Wait()
+	seen := map[[8]byte]int{}
+	for i := 0; i < k; i++ {
+		if errs[i] != nil {
+			return o.Fail("C20/sysrand-failure", "conversation pair %d of %d, all on the default randomness source and running at the same time: %v", i, k, errs[i])
+		}
+		for _, id := range res[i] {
+			if j, dup := seen[id]; dup {
+				return o.Fail("C20/sysrand-shared", "pairs %d and %d, running at the same time on the default randomness source, arrived at the same session id %x", j, i, id)
+			}
+			seen[id] = i
+		}
+	}
+	o.Class(fmt.Sprintf("pairs-%d", k))
+	o.NonTrivial = k >= 4 && len(seen) >= 4
+	return o
+}
+
+func init() { reg("C20sysrand", runSys) }
+
+// TestProp_C20_SysRand runs on the race-detector build as well as on the plain one.
+func TestProp_C20_SysRand(t *testing.T) {
+	defer sim.MarkCompleted("C20sysrand", false)
+	runtime.GOMAXPROCS(16)
+	maxPairs := 16
+	if sim.Thorough() {
+		maxPairs = 32
+	}
+	rapid.Check(t, func(rt *rapid.T) {
+		sc := &SysScript{Pairs: rapid.IntRange(8, maxPairs).Draw(rt, "pairs"), Rounds: rapid.IntRange(1, 3).Draw(rt, "rounds"), V: rapid.SampledFrom([]int{0, 3, 2}).Draw(rt, "v")}
+		sim.Judge(rt, "C20sysrand", sc)
 	})
 }
